@@ -185,3 +185,8 @@ def send_wraps_everything_after_the_handshake(s, f, plain, mac_cbc, enc, mac):
     assert c[0][2] == b"\x06\x10\x09\x50" + (38 + len(plain)).to_bytes(2, "big") + s.session_id.to_bytes(2, "big")
     assert c[0][4] == w.sequence_information + XKNX_SERIAL_NUMBER + b"\x00\x00" + len(plain).to_bytes(2, "big")
     assert c[1] == ("enc", s._key, w.sequence_information + XKNX_SERIAL_NUMBER + b"\x00\x00" + b"\xff\x00", mac_cbc, plain)
+
+
+ASSUMPTIONS = [
+    "AES primitives uninterpreted (arbitrary octets); KNXIPFrame.from_knx/to_knx per their own contracts (C20/C21)",
+]
